@@ -47,7 +47,7 @@ def verus_version():
         return 'unknown'
 
 
-def run_verus(data, tag, extra_flags=(), use_cache=True):
+def run_verus(data, tag, extra_flags=(), use_cache=True, wall_limit=None):
     """returns dict(diags=[...], summary={...}, wall_s, cached)"""
     key = hashlib.sha256(data + b'\0' + ' '.join(VERUS_FLAGS + list(extra_flags)).encode() + verus_version().encode()).hexdigest()
     cdir = os.path.join(CACHE, 'verus')
@@ -65,7 +65,7 @@ def run_verus(data, tag, extra_flags=(), use_cache=True):
         t0 = time.time()
         # wall-clock guard: a query on which the solver does not come back (seen with bit-vector heavy specs, where z3 ignores
         # the rlimit) is a resource error (undecided), never a hang of the check and never an alarm
-        limit = float(os.environ.get('VERIF_VERUS_TIMEOUT', '1500'))
+        limit = float(wall_limit or os.environ.get('VERIF_VERUS_TIMEOUT', '1500'))
         pp = subprocess.Popen(['verus'] + VERUS_FLAGS + list(extra_flags) + [f], cwd=tmp, stdout=subprocess.PIPE, stderr=subprocess.PIPE,
                               universal_newlines=True, start_new_session=True)
         timed_out = False
@@ -111,7 +111,8 @@ def run_verus(data, tag, extra_flags=(), use_cache=True):
              'stderr_tail': p.stderr[-2000:] if not diags and p.returncode != 0 else ''}
     finally:
         shutil.rmtree(tmp, ignore_errors=True)
-    if use_cache:
+    if use_cache and r.get('summary', {}).get('verified') is not None:
+        # (only a run that came back with its summary is remembered: a killed or crashed verifier is not a result)
         os.makedirs(cdir, exist_ok=True)
         with open(cpath + '.tmp%d' % os.getpid(), 'w') as fh:
             json.dump(r, fh)
@@ -155,6 +156,7 @@ class UnitRun(object):
         self.name = name
         self.variants = []
         self.late_rescued = []
+        self.aid_rescued = []
         self.inlined = []
         self.unstable = []
         self.extra_smt_ms = 0
@@ -291,7 +293,10 @@ def classify(unit, data, diags, run):
         oid = '%s/%s/%s/%s' % (run.name, fn, kind, detail)
         if kind == 'recommends':
             continue
-        run.failures.append({'id': oid, 'props': props, 'kind': kind, 'message': msg, 'fn': fn,
+        aid = None
+        if org.get('k') == 'clause' and org.get('section') in ('hint', 'invariant') and org.get('key') is not None:
+            aid = [org.get('fn'), org.get('key')]
+        run.failures.append({'id': oid, 'props': props, 'kind': kind, 'message': msg, 'fn': fn, 'aid': aid,
                              'rendered': d.get('rendered', ''), 'repo': repo_loc, 'site': site_text(repo_loc),
                              'repo_fn': unit.fns.get(fn, {}).get('path'), 'repo_file': unit.fns.get(fn, {}).get('file')})
 
@@ -391,12 +396,14 @@ def build(name, inline=()):
     return unit, data
 
 
-def build_late(name, inline=()):
-    """same unit with every pure hint (lemma calls, asserts) moved to the end of its block"""
+def build_late(name, inline=(), drop_aids=(), late=True):
+    """same unit with every pure hint (lemma calls, asserts) moved to the end of its block (late), or with the given proof
+    aids (fn, key) left out (drop_aids)"""
     unit = extract.Unit(name, REPO)
     unit.inline_names = set(inline)
     unit.tmpl_props = {}
-    unit.late_hints = True
+    unit.late_hints = late
+    unit.drop_aids = set(drop_aids)
     extract.process_template(unit, os.path.join(CONTRACTS, name + '.vrs'), PRELUDE)
     for c in unit.chunks:
         if c.origin['k'] == 'tmpl':
@@ -468,7 +475,7 @@ def run_unit(name, tier, want_probe=True):
                 lres = run_verus(ldata, name + '_late')
                 lrun = UnitRun(name)
                 classify(lunit, ldata, lres['diags'], lrun)
-                if not lrun.frontend_errors and not lrun.resource_errors:
+                if not lrun.frontend_errors and not lrun.resource_errors and lres['summary'].get('verified') is not None:
                     # a failing postcondition does not taint the other obligations of its function, a failing
                     # assert / precondition / invariant does (the verifier assumes it afterwards)
                     tainted = set(f['fn'] for f in lrun.failures if f['kind'] != 'ensures')
@@ -478,6 +485,33 @@ def run_unit(name, tier, want_probe=True):
                     if rescued:
                         run.late_rescued = rescued
                         run.failures = keep
+        except (AnchorLost, extract.Unsupported):
+            pass
+    if run.failures and not run.frontend_errors and any(f.get('aid') for f in run.failures):
+        # third attempt: a proof aid (hint, loop invariant) that no longer holds is left out, together with the aids that use
+        # its ghost variables. Aids are never part of the claim: a function that verifies without them is proved; otherwise
+        # the clauses that fail without them are reported next to the aid (the verifier assumes a failed aid afterwards,
+        # which hides the clause it was written for).
+        try:
+            drop = set((f['aid'][0], f['aid'][1]) for f in run.failures if f.get('aid'))
+            aunit, adata = build_late(name, inline, drop_aids=drop, late=False)
+            # (bounded: without its aids a function may simply be too hard; then the first report stands)
+            ares = run_verus(adata, name + '_noaid', (), True, float(os.environ.get('VERIF_NOAID_TIMEOUT', '150')))
+            arun = UnitRun(name)
+            classify(aunit, adata, ares['diags'], arun)
+            if not arun.frontend_errors and not arun.resource_errors and ares['summary'].get('verified') is not None:
+                afns = set(f['fn'] for f in arun.failures)
+                rescued = [f for f in run.failures if f.get('aid') and f['fn'] not in afns]
+                if rescued:
+                    run.aid_rescued = sorted(set(f['id'] for f in rescued))
+                    run.failures = [f for f in run.failures if f not in rescued]
+                have = set(f['id'] for f in run.failures)
+                bad_fns = set(f['fn'] for f in run.failures if f.get('aid'))
+                for f in arun.failures:
+                    if f['fn'] in bad_fns and f['id'] not in have and not f.get('aid'):
+                        f['without_aid'] = True
+                        run.failures.append(f)
+                        have.add(f['id'])
         except (AnchorLost, extract.Unsupported):
             pass
     if vfuts:
@@ -590,6 +624,7 @@ def main(argv):
             'reproofs': dict((r.name, r.variants) for r in runs),
             'rule': 'every unit is re-verified from scratch (no cache) under three further solver configurations; an obligation counts as failed only if no configuration proves its function',
             'unstable_obligations': sorted(set(x for r in runs for x in r.unstable)),
+            'aids_no_longer_needed': sorted(set(x for r in runs for x in r.aid_rescued)),
             'extra_solver_time_ms': sum(r.extra_smt_ms for r in runs),
         }
         if os.environ.get('VERIF_NO_SEEDED') != '1':
